@@ -426,6 +426,8 @@ func snapDiscard(p *Program, obs *obSet) {
 			obs.fail(key, pos, "the removal is reached on a path that has not established filepath.Dir(file.Name()) == tmpDir: a completed snapshot's file could lose its (empty-named) directory", v.Path())
 		case !notNil:
 			obs.fail(key, pos, "the removal is reached on a path that has not established file != nil", v.Path())
+		case calleeName(c.Common()) == "os.Remove":
+			obs.fail(key, pos, "tmpDir is removed with os.Remove: the directory holds the snapshot's data and metadata files, and os.Remove fails on a non-empty directory, so Discard reports an error and leaves the partial snapshot behind", v.Path())
 		default:
 			obs.ok(key, pos, "os.RemoveAll(tmpDir) is reached only with file != nil and filepath.Dir(file.Name()) == tmpDir")
 		}
